@@ -493,6 +493,10 @@ func (x *Exec) ghostSet(st *State, h int, name, t string) {
 // havocGhost gives fresh values to the named ghost cells in every store handle.
 func (x *Exec) havocGhost(st *State, names map[string]bool, all bool) {
 	for _, s := range st.stores {
+		if names["$events"] {
+			// the havocked code may emit events: the event list of every handle is unknown afterwards
+			s.EvOpaque = true
+		}
 		if all {
 			s.G = map[string]string{}
 			s.Epoch = x.newEpoch()
@@ -577,12 +581,22 @@ func (x *Exec) coll(v Value) (collDesc, bool) {
 	d := collDesc{name: lastSeg(o.Path), kind: n.Obj().Name()}
 	ta := n.TypeArgs()
 	e := x.enc
+	if n.Obj().Pkg() == nil || n.Obj().Pkg().Path() != "cosmossdk.io/collections" {
+		// e.g. a sync.Map field: not a store collection
+		return d, false
+	}
 	switch d.kind {
 	case "Map":
+		if ta.Len() < 2 {
+			return d, false
+		}
 		d.keyTy, d.valTy = ta.At(0), ta.At(1)
 		d.sort = fmt.Sprintf("(Array %s (Opt %s))", e.Sort(d.keyTy), e.Sort(d.valTy))
 		d.gi = ghostInfo{ValTy: d.valTy, KeyTy: d.keyTy, Opt: true, Arr: true}
 	case "Item":
+		if ta.Len() < 1 {
+			return d, false
+		}
 		d.valTy = ta.At(0)
 		d.sort = fmt.Sprintf("(Opt %s)", e.Sort(d.valTy))
 		d.gi = ghostInfo{ValTy: d.valTy, Opt: true}
@@ -689,6 +703,10 @@ func (x *Exec) applyContract(c *CallCtx, ct *Contract) []Outcome {
 			strings.Contains(cl.Text, "$hook") || strings.Contains(cl.Text, "$nextCalled") || strings.Contains(cl.Text, "$errFromDeposit") || strings.Contains(cl.Text, "$depositCalls") {
 			// clauses about the callee body's own call structure are checked when the callee is verified;
 			// they say nothing a caller could use
+			continue
+		}
+		if mentionsLoopGhost(ct, cl.Text) {
+			// history sequences of the callee's loops are not visible to a caller
 			continue
 		}
 		sv, err := EvalSpec(cl.node, env, x.sigs, bound)
@@ -1164,6 +1182,16 @@ func (c *cenv) TypedUF(name string) ([]types.Type, types.Type, bool) {
 		}
 	}
 	switch name {
+	case "valsetValidators", "stakingConsAddr":
+		tp := c.x.L.Prog.ImportedPackage("github.com/cometbft/cometbft/proto/tendermint/types")
+		stp := c.x.L.Prog.ImportedPackage("github.com/cosmos/cosmos-sdk/x/staking/types")
+		if tp == nil || stp == nil || tp.Type("ValidatorSet") == nil || tp.Type("Validator") == nil || stp.Type("Validator") == nil {
+			return nil, nil, false
+		}
+		if name == "stakingConsAddr" {
+			return []types.Type{stp.Type("Validator").Type()}, types.NewSlice(types.Typ[types.Uint8]), true
+		}
+		return []types.Type{tp.Type("ValidatorSet").Type()}, types.NewSlice(types.NewPointer(tp.Type("Validator").Type())), true
 	case "tmPk", "cmtPubKey":
 		cp := c.x.L.Prog.ImportedPackage("github.com/cometbft/cometbft/proto/tendermint/crypto")
 		if cp == nil || cp.Type("PublicKey") == nil {
@@ -1220,6 +1248,23 @@ func (c *cenv) AtCall(fn string) (SpecEnv, bool) {
 
 func (c *cenv) HookCallList() []HookCall { return c.st.hookCalls }
 
+func (c *cenv) LoopGhost(name string) (LGhost, bool) {
+	if lg, ok := c.st.lghost[name]; ok {
+		return lg, true
+	}
+	// a path that never entered the loop: the sequence is unconstrained
+	if c.x.topC != nil {
+		for _, cl := range c.x.topC.Of("loopghost") {
+			if cl.Name == name {
+				sym := fmt.Sprintf("lg!%s!0", name)
+				c.x.enc.DeclFun(sym, []string{"Int"}, cl.Sort)
+				return LGhost{Sym: sym, Sort: cl.Sort}, true
+			}
+		}
+	}
+	return LGhost{}, false
+}
+
 // CallInfo exposes the recorded by-contract calls of the current path to postconditions.
 func (c *cenv) CallInfo(kind, fn string, i int) (SV, bool) {
 	var last *CallRec
@@ -1265,4 +1310,13 @@ func (x *Exec) findByFunc(name string) (*Contract, *ssa.Function) {
 		}
 	}
 	return nil, nil
+}
+
+func mentionsLoopGhost(ct *Contract, text string) bool {
+	for _, g := range ct.Of("loopghost") {
+		if strings.Contains(text, g.Name+"(") {
+			return true
+		}
+	}
+	return false
 }
